@@ -349,8 +349,17 @@ def shard(ctx):
             gen.assign_heads(rng, spec, rng.choice(['random', 'first', 'last']))
         run_case(ctx, {'kind': 'c05', 'spec': spec, 'heads': heads,
                        'root_attach': rng.random() < 0.4}, rng)
+    # ---- inside sequences of other transformations (vt/pipeline.py) ----
+    from . import pipeline
+    pipeline.run(ctx, Cur, ('boyd_split', 'raising'), 1500, 60000)
+
 
 
 def replay(ctx, case):
+    if case.get('kind') == 'pipeline':
+        install(ctx.R)
+        from . import pipeline
+        pipeline.run_case(ctx, Cur, case, ctx.rng('replay'))
+        return
     install(ctx.R)
     run_case(ctx, case, ctx.rng('replay'))
